@@ -29,9 +29,105 @@ def _model_to_dict(m, limit=400):
   return out
 
 
-def check(assumptions, goal, timeout_ms=10000, seed=0, want_model=True, backends=("z3api", "z3old", "cvc5")):
+def _symbols(t, cache):
+  """names of uninterpreted constants and functions occurring in t"""
+  k = t.get_id()
+  if k in cache:
+    return cache[k]
+  out = set()
+  stack = [t]
+  seen = set()
+  while stack:
+    x = stack.pop()
+    i = x.get_id()
+    if i in seen:
+      continue
+    seen.add(i)
+    if z3.is_app(x):
+      if x.decl().kind() == z3.Z3_OP_UNINTERPRETED:
+        out.add(x.decl().name())
+      stack.extend(x.children())
+    elif z3.is_quantifier(x):
+      stack.append(x.body())
+  cache[k] = out
+  return out
+
+
+def _flatten(a):
+  if z3.is_and(a):
+    out = []
+    for c in a.children():
+      out.extend(_flatten(c))
+    return out
+  return [a]
+
+
+def _mentions_real(t, cache):
+  k = t.get_id()
+  if k in cache:
+    return cache[k]
+  r = False
+  stack = [t]
+  seen = set()
+  while stack:
+    x = stack.pop()
+    i = x.get_id()
+    if i in seen:
+      continue
+    seen.add(i)
+    if z3.is_real(x):
+      r = True
+      break
+    if z3.is_app(x):
+      stack.extend(x.children())
+    elif z3.is_quantifier(x):
+      stack.append(x.body())
+  cache[k] = r
+  return r
+
+
+def integer_projection(assumptions):
+  """drop every hypothesis conjunct that mentions a Real-sorted term (floating-point path
+  conditions). Weakening hypotheses is sound for validity; used for index obligations, whose
+  index terms are integers."""
+  cache = {}
+  out = []
+  for a in assumptions:
+    for c in _flatten(a):
+      if not _mentions_real(c, cache):
+        out.append(c)
+  return out
+
+
+def cone_of_influence(assumptions, goal):
+  """keep only the assumption conjuncts that (transitively) share a symbol with the goal.
+  Sound for validity (fewer hypotheses). A counter-model of the reduced query extends to the
+  full one because the dropped conjuncts share no symbol with it (their joint
+  satisfiability is what the per-contract vacuity canary checks)."""
+  cache = {}
+  conj = []
+  for a in assumptions:
+    conj.extend(_flatten(a))
+  syms = [(_symbols(c, cache), c) for c in conj]
+  live = set(_symbols(goal, cache))
+  keep = [False] * len(syms)
+  changed = True
+  while changed:
+    changed = False
+    for i, (ss, c) in enumerate(syms):
+      if not keep[i] and (ss & live or not ss):
+        keep[i] = True
+        if not ss <= live:
+          live |= ss
+          changed = True
+  return [c for (ss, c), k in zip(syms, keep) if k]
+
+
+def check(assumptions, goal, timeout_ms=10000, seed=0, want_model=True, backends=("z3api", "z3old", "cvc5"), cone=True):
   """returns dict(status, backend, time_s, model?)"""
   t0 = time.time()
+  if cone:
+    assumptions = cone_of_influence(assumptions, goal)
   s = z3.Solver()
   s.set("timeout", int(timeout_ms))
   s.set("random_seed", int(seed) % (2**31))
